@@ -109,6 +109,23 @@ Theorem C20_new_denoms_in_senders_namespace : forall e s a m s',
 Proof. exact new_denoms_in_senders_namespace. Qed.
 Print Assumptions C20_new_denoms_in_senders_namespace.
 
+(* handing over: after an accepted TransferPositions the listed positions belong to the new owner and to nobody else -
+   the previous owner has lost the authority (combine with C20_unauthorised_fails_unchanged); after an accepted
+   ChangeAdmin the denom's admin is the new one, and anybody else, the previous admin included, is powerless *)
+Theorem C20_transfer_hands_over : forall e s a ids rcp s',
+  step e s a (MTransferPositions ids rcp) = (s', Ok) ->
+  forall id, In id ids -> forall x, owns_pos s' x id = (x =? rcp).
+Proof. exact transfer_hands_over. Qed.
+Print Assumptions C20_transfer_hands_over.
+Theorem C20_change_admin_hands_over : forall e s a d new s',
+  step e s a (MChangeAdmin d new) = (s', Ok) -> admin_of s' d = new.
+Proof. exact change_admin_hands_over. Qed.
+Print Assumptions C20_change_admin_hands_over.
+Theorem C20_previous_admin_powerless : forall e s a d new s' x,
+  step e s a (MChangeAdmin d new) = (s', Ok) -> new <> Some x -> is_admin s' d x = false.
+Proof. exact change_admin_previous_admin_powerless. Qed.
+Print Assumptions C20_previous_admin_powerless.
+
 (* the inventory: every Msg-service method of the four modules found in /repo (Gen/C20_msgs.v, regenerated on every
    run) is classified - modelled by a constructor of [msg] or explicitly not acting on an existing owned object -,
    no row is stale, and every constructor models a method that exists *)
